@@ -7,9 +7,14 @@ package main
 
 import (
 	"bytes"
+	"context"
 	"encoding/hex"
 	"encoding/json"
+	"fmt"
+	"math/big"
 
+	"github.com/formancehq/numscript/internal/analysis"
+	"github.com/formancehq/numscript/internal/interpreter"
 	"github.com/formancehq/numscript/internal/lsp"
 	"github.com/formancehq/numscript/internal/parser"
 )
@@ -95,4 +100,58 @@ func opParseSeq(c *ExecCase) map[string]any {
 	res["changed"] = changed
 	res["detail"] = detail
 	return res
+}
+
+// ---- probe: the packages keep no state between calls. After every case the harness parses, analyses and runs
+// one fixed script (all six types, an allotment with a leftover unit, a zero portion, metadata, a parse error in a
+// second text) and compares with what the same probe gave when the process started: any difference means that an
+// earlier case changed process-wide state (a package-level table, cache or shared number).
+const probeScript = `vars {
+  account $a
+  asset $s
+  number $n
+  monetary $m
+  portion $p
+  string $t
+}
+send [$s $n] (
+  source = $a allowing overdraft up to $m
+  destination = { 0% to @z $p to @x remaining to @y }
+)
+send [COIN 10] (
+  source = @world
+  destination = { 1/3 to @u 2/3 to @v }
+)
+set_tx_meta("k", $t)
+set_account_meta(@x, "q", 1/4)
+`
+
+var probeBase string
+
+func probeNow() (out string) {
+	defer func() {
+		if r := recover(); r != nil {
+			out = "PANIC " + fmt.Sprint(r)
+		}
+	}()
+	chk := analysis.CheckSource(probeScript)
+	for _, d := range chk.Diagnostics {
+		out += diagName(d.Kind) + "@" + rng(d.Range) + ":" + d.Kind.Message() + ";"
+	}
+	bad := analysis.CheckSource("vars { acount $x }\nsend [USD 1] (source = @a destination = ")
+	for _, d := range bad.Diagnostics {
+		out += diagName(d.Kind) + "@" + rng(d.Range) + ":" + d.Kind.Message() + ";"
+	}
+	pr := parser.Parse(probeScript)
+	res, err := interpreter.RunProgram(context.Background(), pr.Value,
+		map[string]string{"a": "acc", "s": "USD", "n": "11", "m": "USD 5", "p": "1/2", "t": "text"},
+		interpreter.StaticStore{Balances: interpreter.Balances{"acc": {"USD": big.NewInt(7)}}}, nil)
+	if err != nil {
+		return out + "ERR " + err.Error()
+	}
+	for _, p := range res.Postings {
+		out += p.Source + ">" + p.Destination + ":" + p.Amount.String() + p.Asset + ";"
+	}
+	jb, _ := json.Marshal(res)
+	return out + string(jb)
 }
